@@ -482,6 +482,50 @@ def macro_consts(names):
     return res
 
 
+def target_delimiters_rule(rep, u, fname="http_parse_req_line"):
+    """RFC 7230 5.3 / RFC 3986 3: a request target that begins with '/' is in origin form - it has no scheme and no authority,
+    whatever its path or query contains; in absolute form the authority ends at the first '/', '?' or '#'.  Structurally:
+    (a) the search for "://" is reached only through a test of the target's first byte against '/';
+    (b) the end of the host is looked for with '?' among the delimiters, not with '/' alone."""
+    fn = need(u, fname)
+    rep.functions.add(fname)
+    n = 0
+    searches = [(pos, c) for pos, root, c, ps in fn.calls() if (c.get("fn") or "").startswith(("mem_find", "memmem")) and
+                any(_str_of(a) == "://" for a in c.get("args", []))]
+    for pos, c in searches:
+        n += 1
+        guarded = False
+        for bid in fn.reachable_blocks():
+            cnd = fn.blocks[bid].cond
+            if cnd is None or bid == pos[0] or not fn.dominates(bid, pos[0]):
+                continue
+            has_slash = any(const_val(y) == 0x2f for y, _ in walk(cnd))
+            first_byte = any((y.get("k") == "sub" and const_val(y["i"]) == 0 and "uri" in key(y["b"])) or
+                             (y.get("k") == "un" and y.get("op") == "*" and "uri" in key(y["e"])) for y, _ in walk(cnd))
+            if has_slash and first_byte:
+                guarded = True
+        desc = "%s looks for a scheme only in a target that does not begin with '/'" % fname
+        (rep.proved if guarded else rep.violated)(
+            "R-SPAN", fn, "scheme-only-in-absolute-form", desc,
+            "" if guarded else "the search for \"://\" at line %s is not preceded by a test of the first byte: GET /r?u=http://evil.example/x is split "
+            "into scheme \"/r?u=http\", host evil.example, path /x" % c.get("ln"), c.get("ln"))
+    # (b) host end
+    host_pos = [pos for pos, root, x, ps in fn.nodes() if x.get("k") == "bin" and x["op"] == "=" and key(strip_casts(x["x"])).endswith("->host") and
+                any(pos[0] in fn.reach_from([pos_[0]]) for pos_, c_ in searches)]
+    size_pos = [pos for pos, root, x, ps in fn.nodes() if x.get("k") == "bin" and x["op"] == "=" and key(strip_casts(x["x"])).endswith("->host_size") and
+                host_pos and fn.pos_dominates(host_pos[0], pos)]
+    if host_pos and size_pos:
+        n += 1
+        between = [y for pos, root, y, ps in fn.nodes() if fn.pos_dominates(host_pos[0], pos) and (pos[0] in fn.reach_from([host_pos[0][0]])) and
+                   any(sp[0] in fn.reach_from([pos[0]]) or sp[0] == pos[0] for sp in size_pos) and const_val(y) == 0x3f]
+        desc = "%s ends the authority at the first '/', '?' (or '#'), not at the first '/' only" % fname
+        (rep.proved if between else rep.violated)(
+            "R-SPAN", fn, "authority-delimiters", desc,
+            "" if between else "no '?' among the delimiters between the start of the host (line %s) and its size: GET http://example.com?next=/admin "
+            "yields host \"example.com?next=\" and path /admin" % fn.blocks[host_pos[0][0]].elems[host_pos[0][1]].get("ln"))
+    return n
+
+
 def cmpi_fallback(rep, u, fname="mem_cmpi"):
     """the field-name comparison on a build without strncasecmp is the repository's own loop: over one byte, every pair
     (c, c'), c' in {c, c ^ 0x20, c | 0x20, c & ~0x20, c + 1}, compares equal exactly when the ASCII case folds agree"""
@@ -526,7 +570,8 @@ def run(rep, tier):
     rep.floor("fold byte classes", fold_rule(rep, u), 256)
     count_rule(rep, u)
     rep.floor("method spellings", method_table(rep, u, consts), 14)
-    rep.floor("target component searches", span_rule(rep, u), 3)
+    rep.floor("target component searches", span_rule(rep, u), 2)
+    rep.floor("target form rules", target_delimiters_rule(rep, u), 2)
     rep.floor("portable case-fold byte pairs", cmpi_fallback(rep, us[HTTP_C_PORTABLE]), 700)
     # "returns the trimmed value": pointer and length outputs of the lookup helpers are stored together (R-OUTDEF)
     from rules import r_outdef
